@@ -19,7 +19,7 @@
 (* Scenarios marked as races replay the listed known findings with the     *)
 (* stub as scheduler; their expected predicate failures carry the race tag.*)
 (***************************************************************************)
-EXTENDS AdfSem, AdfSyntax, ServerShapes, Integers, Json, IOUtils, TLC
+EXTENDS AdfCompose, AdfSyntax, ServerShapes, Integers, Json, IOUtils, TLC
 
 Rec == ndJsonDeserialize(IOEnv.TRACE)
 
@@ -131,8 +131,80 @@ CheckProblemSmall(p, id, where, settled) ==
   /\ (good /\ settled) => Report(parse.type = "Some", id, "C16", "parse-result-never-stored")
   /\ (settled /\ where = "http") => Report(p.running = <<>>, id, "C16", "task-reported-running-at-quiescence")
 
-\* codes beyond brute-force semantics (the slow-task scenario) are outside the content oracle: DONT_CARE for content
-CheckProblem(p, id, where, settled) == Len(p.code_cp) > 220 \/ CheckProblemSmall(p, id, where, settled)
+\* ------------------------------------------------------------------ larger codes: composed frameworks (AdfCompose)
+\* The blocks are the connected components of the "mentions" relation; a code is judged if it has at most 16 statements and
+\* every component at most 5 (then the block-wise definitions are cheap and the composition theorem gives the answers).
+NeighS(asts, n, s) == Atoms(asts[s]) \cup { t \in 1..n : s \in Atoms(asts[t]) } \cup {s}
+RECURSIVE CompOf(_, _, _)
+CompOf(asts, n, S) == LET T == UNION { NeighS(asts, n, s) : s \in S } IN IF T = S THEN S ELSE CompOf(asts, n, T)
+RECURSIVE SeqOfSet(_)
+SeqOfSet(S) == IF S = {} THEN <<>> ELSE LET m == CHOOSE x \in S : \A y \in S : x <= y IN <<m>> \o SeqOfSet(S \ {m})
+RECURSIVE BlocksOf(_, _, _)
+BlocksOf(asts, n, todo) == IF todo = {} THEN <<>>
+                           ELSE LET m == CHOOSE x \in todo : \A y \in todo : x <= y
+                                    c == CompOf(asts, n, {m}) IN
+                                <<SeqOfSet(c)>> \o BlocksOf(asts, n, todo \ c)
+
+\* the assignments a picture is walked on: all extensions of the shown model if at most 12 statements are open, else a structured sample
+ExtOf(named, names, v) ==
+  LET n == Len(names)
+      T == { names[i] : i \in { j \in 1..n : v[j] = "T" } }
+      U == { names[i] : i \in { j \in 1..n : v[j] = "U" } } IN
+  IF Cardinality(U) <= 12 THEN { T \cup X : X \in SUBSET U }
+  ELSE { T \cup X : X \in { {} } \cup { {u} : u \in U } \cup { U \ {u} : u \in U } \cup { U } }
+
+GraphOKBig(g, names, asts, v) ==
+  LET n == Len(names)  N == NodeIds(g)  named == RangeOf(names) IN
+  /\ GraphShape(g)
+  /\ Len(g.ac) = n /\ RangeOf(g.ac) \subseteq N
+  /\ Reach(g, RangeOf(g.ac), {}) = N
+  /\ \A id \in N : LabelOf(g, id) \in named \cup {TOPcp, BOTcp}
+  /\ \A i \in 1..n : \E x \in RangeOf(g.roots) : x[1] = g.ac[i] /\ names[i] \in RangeOf(x[2])
+  /\ \A x \in RangeOf(g.roots) : \A lb \in RangeOf(x[2]) : \E i \in 1..n : names[i] = lb /\ g.ac[i] = x[1]
+  /\ \A i \in 1..n : \A A \in ExtOf(named, names, v) :
+       WalkG(g, g.ac[i], A, Cardinality(N) + 1) = (IF EvalL(asts[i], A) THEN "T" ELSE "F")
+
+CheckProblemBig(p, id, where, settled) ==
+  LET strict == Parse(p.code_cp)
+      good == strict.ok /\ WellFormedFacts(strict.facts)
+      names == Names(strict.facts)
+      acs == Acs(strict.facts)
+      n == Len(names)
+  IN
+  IF ~good \/ n > 16 THEN TRUE                                                    \* DONT_CARE for content
+  ELSE
+  LET byPos == [i \in DOMAIN names |-> (acs[CHOOSE k \in DOMAIN acs : acs[k][2] = names[i]])[3]]
+      asts == [i \in DOMAIN names |-> ToIdx(byPos[i], names)]
+      blocks == BlocksOf(asts, n, 1..n)
+  IN
+  IF \E k \in DOMAIN blocks : Len(blocks[k]) > 5 THEN TRUE                        \* DONT_CARE for content
+  ELSE
+  LET needCo == \E k \in DOMAIN p.per : p.per[k].strategy = "Complete" /\ p.per[k].type = "Some"
+      bs == IF needCo THEN BlockSem(asts, blocks) ELSE BlockSemLight(asts, blocks)
+      G  == GroundedC(asts, n, blocks, <<>>, bs)
+      parse == p.per[1]
+  IN
+  /\ \A k \in DOMAIN p.per :
+       LET e == p.per[k] IN
+       /\ (where = "http" /\ e.type # "None") => Report(e.strategy \notin RangeOf(p.running), id, "C16", <<"ended-task-still-running", e.strategy>>)
+       /\ (e.type = "Some") =>
+            LET ms == [j \in DOMAIN e.models |-> TVv(e.models[j].ac)] IN
+            /\ Report(CASE e.strategy = "Parse" -> Len(ms) = 1
+                        [] e.strategy = "Ground" -> ms = <<G>>
+                        [] e.strategy = "Complete" -> ExactlyOnceC(ms, n, asts, blocks, <<>>, bs, "co") /\ Len(ms) >= 1 /\ ms[1] = G
+                        [] OTHER -> ExactlyOnceC(ms, n, asts, blocks, <<>>, bs, "st"),
+                      id, "C16", <<"stored-models-differ-from-definition-for-code", e.strategy>>)
+            /\ Report(\A j \in DOMAIN e.models :
+                        GraphOKBig(e.models[j], names, byPos, IF e.strategy = "Parse" THEN [i \in 1..n |-> "U"] ELSE ms[j]),
+                      id, "C16", <<"graph-not-faithful", e.strategy>>)
+  /\ settled => Report(parse.type = "Some", id, "C16", "parse-result-never-stored")
+  /\ (settled /\ where = "http") => Report(p.running = <<>>, id, "C16", "task-reported-running-at-quiescence")
+  /\ PrintT(<<"BIGCODE", l, id, n, Len(blocks)>>)
+
+\* codes beyond brute-force semantics are judged as composed frameworks where they decompose; otherwise DONT_CARE for content
+CheckProblem(p, id, where, settled) ==
+  IF Len(p.code_cp) <= 220 THEN CheckProblemSmall(p, id, where, settled)
+  ELSE IF Len(p.code_cp) <= 1500 THEN CheckProblemBig(p, id, where, settled) ELSE TRUE
 
 \* ------------------------------------------------------------------ HTTP events
 NeedsLogin == {"get", "list", "solve", "delete", "info", "logout", "update", "delete_account"}
